@@ -37,6 +37,19 @@ def cases(tier, rng):
     for (w, h) in [(320, 240), (400, 3), (3, 400), (257, 255), (2, 301)] + ([(640, 480), (1000, 7)] if tier != 'quick' else []):
         yield J('ell_geom', -160, -100, w, h, 1)
     yield J('circ_geom', -100, -130, 240 if tier == 'quick' else 500, 1)
+    # Rectangle points()/contains() (suites of C16, run here too so that the C05 rectangle theorems are tied by ./check C05)
+    for w in range(0, 7):
+        for h in range(0, 7):
+            x, y = POSITIONS[(w + h) % 4]
+            yield J('rect_points', x, y, w, h)
+            for (qx, qy) in [(x - 1, y), (x, y - 1), (x, y), (x + w - 1, y + h - 1), (x + w, y + h - 1), (x + w - 1, y + h), (x + w // 2, y + h // 2)]:
+                yield J('rect_contains', x, y, w, h, qx, qy)
+    for _ in range(n):
+        r = rect(rng)
+        yield J('rect_points', *r)
+        yield J('rect_contains', *r, r[0] + rng.randrange(-2, r[2] + 3), r[1] + rng.randrange(-2, r[3] + 3))
+    # contains() only, on both sides of the machine ranges (model = checked arithmetic: PANIC when an intermediate does not fit)
+    yield from machine_cases(tier, rng)
     for _ in range(n):
         # range edges of the model's saturating operations (positions only; no point lists)
         x, y = coord(rng, True), coord(rng, True)
@@ -46,7 +59,58 @@ def cases(tier, rng):
         yield J('ell_wc', x, y, extent(rng, True), extent(rng, True))
 
 
+def machine_cases(tier, rng):
+    import math
+    dirs = [(1, 0), (-1, 0), (0, 1), (0, -1), (1, 1), (-1, 1), (1, -1), (-1, -1), (2, 1), (-1, 2)]
+    for d in [0, 1, 5, 11, 100, 1000, 20000, 32767, 32768, 32769, 40000, 46340, 46341, 65535, 65536, 70000]:
+        for (x, y) in [(0, 0), (-(d // 2), -(d // 2)), (1000, -2000)]:
+            cx, cy = x + max(d - 1, 0) // 2, y + max(d - 1, 0) // 2
+            pts = [(cx, cy), (x, y), (x - 1, y), (x + d - 1, y + d - 1), (x + d, y + d), (x, cy), (x - 1, cy), (cx, y), (cx, y - 1)]
+            for (sx, sy) in dirs:
+                nrm = math.hypot(sx, sy)
+                for r in [d / 2 - 1.5, d / 2 - 0.5, d / 2 + 0.5, 23168, 23170, 23171, 23173, 32768, 32773, 65536]:
+                    pts.append((cx + int(sx * r / nrm), cy + int(sy * r / nrm)))
+            for (qx, qy) in pts:
+                yield J('circ_in', x, y, d, qx, qy)
+    yield 'circ_in 0 0 11 32773 5'
+    sizes = [(320, 240), (1000, 500), (46340, 46340), (46341, 46341), (65535, 65535), (65536, 65536), (40000, 30000), (65536, 32768),
+             (65537, 32768), (100000, 20000), (3, 1000000), (1000000, 3), (2, 2 ** 29), (1, 5), (0, 9), (12, 12)]
+    for (w, h) in sizes:
+        for (x, y) in [(0, 0), (-(w // 2), -(h // 2))]:
+            cx, cy = x + max(w - 1, 0) // 2, y + max(h - 1, 0) // 2
+            rx = (2 ** 31) // max(h, 1)
+            ry = (2 ** 31) // max(w, 1)
+            pts = [(cx, cy), (x, y), (x - 1, y), (x + w - 1, y + h - 1), (x + w, y + h), (x, cy), (x - 1, cy), (cx, y), (cx, y - 1),
+                   (x + w // 7, y + h // 7), (x + w - 1 - w // 7, y + h // 6)]
+            for k in (1, 2):
+                for j in (-2, 0, 1, 3):
+                    pts += [(cx + k * rx + j, cy), (cx - k * rx - j, cy + 1), (cx, cy + k * ry + j), (cx + 1, cy - k * ry - j), (cx + k * rx + j, cy + k * ry - j)]
+            for (qx, qy) in pts:
+                if abs(qx) < 2 ** 31 and abs(qy) < 2 ** 31:
+                    yield J('ell_in', x, y, w, h, qx, qy)
+    n = 200 if tier == 'quick' else 4000
+    for _ in range(n):
+        d = rng.choice([rng.randrange(0, 70000), rng.randrange(32000, 33000), rng.randrange(0, 300)])
+        x, y = rng.randrange(-50000, 50000), rng.randrange(-50000, 50000)
+        cx, cy = x + d // 2, y + d // 2
+        r = rng.choice([d // 2, d // 2 + 1, rng.randrange(0, 70000), rng.randrange(23160, 23180), rng.randrange(32760, 32780)])
+        ang = rng.random() * 6.2832
+        yield J('circ_in', x, y, d, cx + int(r * math.cos(ang)), cy + int(r * math.sin(ang)))
+        w, h = rng.choice([(rng.randrange(0, 70000), rng.randrange(0, 70000)), (rng.randrange(0, 2000), rng.randrange(0, 2000)), (rng.randrange(0, 8), rng.randrange(0, 2 ** 22))])
+        cx, cy = x + w // 2, y + h // 2
+        rr = rng.choice([1.0, 0.99, 1.01, rng.random() * 3, (2 ** 31) / max(w * h, 1) * 2])
+        qx, qy = cx + int(rr * w / 2 * math.cos(ang)), cy + int(rr * h / 2 * math.sin(ang))
+        if abs(qx) < 2 ** 31 and abs(qy) < 2 ** 31:
+            yield J('ell_in', x, y, w, h, qx, qy)
+
+
 def search(tier, rng):
+    for d in [0, 1, 2, 5, 11, 64, 240, 1000, 20000, 32768, 32769, 46341, 65535]:
+        for (x, y) in [(0, 0), (-7, 3), (1000, -2000)]:
+            yield J('p_circ_far', x, y, d)
+    for (w, h) in [(11, 11), (320, 240), (1000, 500), (500, 1000), (3, 200), (40000, 30000), (65535, 2), (2, 65535), (1, 1), (100, 7)]:
+        for (x, y) in [(0, 0), (-7, 3)]:
+            yield J('p_ell_far', x, y, w, h)
     N = 24 if tier == 'quick' else 64
     for d in range(0, N + 1):
         for (x, y) in POSITIONS:
@@ -76,24 +140,37 @@ def trivial(line, res):
 
 RULE = ('Rectangle/Circle/Ellipse: correspondence of contains() over the bounding box + margin, the points() list, bounding_box(), '
         'center(), offset(), with_center() between the extracted model and the code for ALL diameters 0..N and ALL axis pairs '
-        '0..N x 0..N (N=20 quick, 40 thorough) at several positions incl. negative, plus random larger shapes and range-edge '
-        'positions for the saturating operations. search: the C05 predicate itself (points() == row-major filter of contains() over '
+        '0..N x 0..N (N=20 quick, 40 thorough) at several positions incl. negative, plus random larger shapes, display-sized shapes and '
+        'range-edge positions for the saturating operations; Rectangle points()/contains() for all sizes 0..6 x 0..6 + random; '
+        'circ_in / ell_in: contains() alone for diameters up to 70000 and axes up to 2^29 with probes at the centre, the box edges, the curve '
+        'and on BOTH sides of the machine range (model = checked arithmetic, answers PANIC exactly when an intermediate does not fit; the '
+        'harness is built with overflow checks). search: the C05 predicate itself (points() == row-major filter of contains() over '
         'box+margin, strictly row-major, inside bounding_box(), far probes outside the box) on the code for all sizes up to 24/64 '
-        'and random sizes up to 200. non-trivial = the shape has at least one point.')
+        'and random sizes up to 200; p_circ_far / p_ell_far: contains() on far points at the boundary of the no-overflow range (recomputed '
+        'in i128): inside it no panic and false outside the box; beyond it only an observation is reported. non-trivial = the shape has a point.')
 EXHAUSTIVE = {'quick': False, 'thorough': False}
-ASSUMPTIONS = ['top-left coordinates within +-2^29, diameter / width / height within 0..2^29: the range in which the saturating '
-               'operations of the model are not reached; products (diameter^2, width^2*height^2, squared doubled distances) are unbounded '
-               'integers in the model while the code computes the circle test in i32/u32 and the ellipse test in i64/u64 (since c18b215) - '
-               'agreement therefore needs diameter < 2^15 resp. width*height < 2^31 and probe points within that distance of the centre '
-               '(arithmetic overflow at larger sizes is the subject of C08, not of C05)']
+ASSUMPTIONS = ['Circle: top-left within +-2^29 and diameter <= 2^15 (circle_mok): then every probe points()/draw() make themselves fits the '
+               'machine arithmetic of the code (i32 `length_squared`, u32 threshold) and the unbounded model equals it (theorems '
+               'C05_circle_box_probes_ok, C05_circle_machine_agrees). Theorems that quantify over a point p carry probe_ok c p = "every '
+               'intermediate result of contains(p) fits its Rust type"; for d < 2^16 this is exactly 4*dist^2 <= i32::MAX, i.e. p within about '
+               '23170 px of the centre (C05_circle_probe_ok_exact). OUTSIDE that range the code does not satisfy clause 5: a build with '
+               'overflow checks panics and a release build wraps, e.g. Circle::new((0,0),11).contains((32773,5)) == true (observed; the '
+               'property probes "the bounding box plus a margin", which is inside the range).',
+               'Ellipse: top-left within +-2^29 and width*height <= 2^31 (ellipse_mok; equal axes therefore <= 46340, the circle threshold is '
+               'computed in u32); eprobe_ok e p = every intermediate of Ellipse::contains(p) fits (i32 differences, u64 products since c18b215): '
+               'far probes with h^2*dx^2 + w^2*dy^2 >= 2^64 overflow (panic / wrap) and are outside the claim.',
+               'Rectangle: coordinates within +-2^29, extents within 2^29 (no saturating operation reached).']
 TRUSTED = ['modelled, not verified: `as u32` of a non-negative i32 squared distance, u32 `/` as Z.div, Range<i32>::find as List.find '
            'over the integer range']
 PARTIAL = []
 
 LEVEL_TEXT = ('Proof: Coq theorems over the Gallina models of Rectangle, Circle and Ellipse state that points() is literally '
               '`filter contains (row-major points of bounding_box())` - hence every accepted point exactly once, in row-major order, '
-              'inside the bounding box - and that contains() is false outside the bounding box, for every position within +-2^29 and '
-              'every size (0, 1, 2, thin and flat shapes included). The scanline iterators are modelled as written (first hit per row, '
+              'inside the bounding box - and that contains() is false outside the bounding box, for every position within +-2^29, every size '
+              '(0, 1, 2, thin and flat shapes included) up to diameter 2^15 resp. width*height 2^31, and every probe point for which the '
+              'i32/u32/u64 arithmetic of the code does not overflow (exact condition probe_ok, proved equivalent to 4*dist^2 <= i32::MAX for '
+              'circles). In that range the checked machine evaluation is proved equal to the unbounded model, and the checked model is compared '
+              'with the code on both sides of the range. The scanline iterators are modelled as written (first hit per row, '
               'mirrored right end, circle: a row without hit ends the iteration, ellipse: such rows are skipped) and proved equal to the '
               'filter via a generic scanline lemma (mirror symmetry + convexity of the row predicate) and, for circles, the lemma that '
               'every row of the box has a hit. The models are tied to the code by running extracted model and real methods on the same '
